@@ -214,8 +214,8 @@ def dmultiItems (s : GState) (sender : Nat) (kind : String) (clen : Nat) (ds : L
         let b := Compio.RecvMsgOut.layout name (List.replicate c.ctlLen 0) w c.flags clen
         (b, b.length)
       | .poll =>
-        -- fusion build: `set_result` of the fallback op is not forwarded
-        match ((FallbackMulti.mk ((Buf.poolOf s.buflen).write w) 0).setResult true w.length).takeBuffer with
+        -- the fallback op records the result in `set_result` and advances to it in `take_buffer`
+        match ((FallbackMulti.mk ((Buf.poolOf s.buflen).write w) 0).setResult w.length).takeBuffer with
         | .ok b => (b.vis, w.length)
         | _ => ([], w.length)
   let subs : List Sub := match s.drv with
